@@ -44,7 +44,7 @@ theorem startSrc_acct (cfg : Cfg) (src : Src) (ctx : Option Nat) (g : G) :
     | queued jid k g' => rw [hs] at h; simp [h, srcFunctors, funsWait, coresWait, srcCores, wfWait]
   | sharedReady r => simp [startSrc, srcFunctors]
   | sharedContract p f => simp [startSrc, srcFunctors, funsWait, coresWait, srcCores, wfWait]
-  | sharedKept p f pre => cases h : g.isSet p pre <;> simp [startSrc, h, srcFunctors, funsWait, coresWait, srcCores, wfWait]
+  | sharedKept e p f pre => cases h : g.isSet p pre <;> simp [startSrc, h, srcFunctors, funsWait, coresWait, srcCores, wfWait]
 
 theorem startLazy_acct (cfg : Cfg) (src : Src) (ovr : Option Exec) (ctx : Option Nat) (g : G) :
     match startLazy cfg src ovr ctx g with
@@ -67,7 +67,7 @@ theorem startLazy_acct (cfg : Cfg) (src : Src) (ovr : Option Exec) (ctx : Option
   | unit => simpa [startLazy] using startSrc_acct cfg (.unit) ctx g
   | sharedReady r => simpa [startLazy] using startSrc_acct cfg (.sharedReady r) ctx g
   | sharedContract p f => simpa [startLazy] using startSrc_acct cfg (.sharedContract p f) ctx g
-  | sharedKept p f pre => simpa [startLazy] using startSrc_acct cfg (.sharedKept p f pre) ctx g
+  | sharedKept e p f pre => simpa [startLazy] using startSrc_acct cfg (.sharedKept e p f pre) ctx g
 
 /-- `asyncFinish` for an eager inner pipeline: caller and functor of the outer step are released now -/
 theorem asyncFinish_acct_eager (m : Mode) (hd : Bool) (own : Exec) (k : List Step) (ctx : Option Nat) (o : Out)
